@@ -28,6 +28,7 @@ RULES = {
     "C19-X3": "every path returning ERROR queued an error",
     "C19-X4": "range ends with different dimension counts => ERROR; dimension count and range flag stored on every OK path",
     "C19-X5": "channelSpec: number ('!' number)*; a '!' that is not followed by a number is ERROR, no number at all is NO_MORE, OK only after a number that is not followed by '!'",
+    "C19-X7": "the integer readers the list walkers call without looking at their result deliver into the caller's variable whenever the conversion ran (no success-gated copy): an entry never keeps the previous entry's value",
     "C19-X6": "channel list: NO_MORE only after the end of the expression was seen (malformed rest => ERROR with -170)",
 }
 
@@ -195,6 +196,56 @@ def rule_x5(ck, prog):
     ck.analysed(f)
 
 
+def rule_x7(ck, prog, S):
+    # which readers are called with their result ignored by the list code
+    users = [prog.fn(n) for n in ("channelSpec", "numericRange", "SCPI_ExprNumericListEntryInt", "SCPI_ExprNumericListEntry")]
+    ignored = set()
+    for u in users:
+        if u is None:
+            continue
+        for c in u.calls():
+            nm = c.get("callee") or ""
+            if nm.startswith("SCPI_ParamTo"):
+                par = u.parent_of(c)
+                while par is not None and par.k in ("ImplicitCastExpr", "ParenExpr"):
+                    par = u.parent_of(par)
+                if par is None or par.k in ("CompoundStmt", "IfStmt", "WhileStmt", "ForStmt") or par.k not in ("BinaryOperator", "UnaryOperator", "DeclStmt", "ReturnStmt", "ConditionalOperator", "CallExpr"):
+                    ignored.add(nm)
+    if not ignored:
+        ck.anchor_lost("C19-X7", "no reader is called with its result ignored by the list walkers")
+        return
+    for nm in sorted(ignored):
+        f = prog.fn(nm)
+        if f is None:
+            continue
+        ck.analysed(f)
+        st = K.site(f, "delivers-whenever-converted", 0)
+        vp = f.params[2]["name"]
+        pg = S.pg(f)
+        convs = [c for c in f.calls() if (c.get("callee") or "").startswith(("ParamSignTo", "strBaseTo", "strTo"))]
+        if not convs:
+            ck.undecided("C19-X7", st, K.loc(f), "conversion call not found")
+            continue
+        direct = all(any(any(x.get("path") == vp for x in a.walk()) and not any(x.k == "ConditionalOperator" for x in a.walk())
+                         for a in C.call_args(c)) for c in convs)
+        if direct:
+            ck.holds("C19-X7", st, K.loc(f, convs[0]), "the converter writes through the caller's pointer")
+            continue
+        stores = [n for n, t in C.stores(f) if t.get("path") == "*" + vp]
+        gated = False
+        for c in convs:
+            r = pg.reachable([pg.after(c)], blocked_edge=lambda e: e.kind == "elem" and e.node in stores)
+            if pg.exit in r:
+                gated = True
+        if gated:
+            ck.violated("C19-X7", st, K.loc(f, convs[0]),
+                        "%s copies the converted value to the caller only on some paths after the conversion, but channelSpec / the list "
+                        "walkers call it without looking at its result: for `(3,.5)` or `(@4!6,.5!-.75)` the entry keeps the value of "
+                        "the previous entry and is still reported OK" % nm)
+        else:
+            ck.holds("C19-X7", st, K.loc(f, convs[0]), "*%s stored on every path after the conversion" % vp)
+
+
 def rule_x4(ck, prog, S):
     ec = prog.enumconst
     OK, ERR = ec.get("SCPI_EXPR_OK"), ec.get("SCPI_EXPR_ERROR")
@@ -268,6 +319,7 @@ def run(ck, fb, tier):
         rule_walkers(ck, prog, S)
         rule_x4(ck, prog, S)
         rule_x5(ck, prog)
+        rule_x7(ck, prog, S)
     if tier == "thorough":
         K.cross_config(ck, fb, "C19-XC", ['numericRange', 'channelRange', 'channelSpec', 'SCPI_ExprNumericListEntry', 'SCPI_ExprChannelListEntry'])
 
